@@ -47,6 +47,7 @@ type scheduler struct {
 	parked []*parked
 	ids    map[uint64]int
 	last   int
+	others int
 	trace  []string
 }
 
@@ -55,7 +56,18 @@ func (s *scheduler) yield(loc string) {
 	s.mu.Lock()
 	id, ok := s.ids[gid]
 	if !ok {
-		id = len(s.ids)
+		// ids by role, not by arrival: goroutines started together reach their first scheduling
+		// point in an order the Go runtime decides, and the canonical order of the enabled set
+		// (hence the meaning of a recorded choice) must not depend on it
+		switch {
+		case strings.HasPrefix(loc, "consumer:"):
+			id = 0
+		case strings.HasPrefix(loc, "canceller:"):
+			id = 1
+		default:
+			id = 2 + s.others
+			s.others++
+		}
 		s.ids[gid] = id
 	}
 	p := &parked{id: id, loc: loc, ch: make(chan struct{})}
@@ -178,6 +190,22 @@ func oneExecution(t *testing.T, c *mc.Ctx, img []byte, sc *scenario) (out execOu
 		}
 		sdriver.VerifYieldHook = s.yield
 		defer func() { sdriver.VerifYieldHook = nil }()
+		// a select with several clauses: which one is tried first is a choice of the explorer
+		// (alternative 0 = source order; another order costs one deviation, like a preemption).
+		// Called by the one goroutine that is running while the scheduler sits in synctest.Wait.
+		sdriver.VerifChooseHook = func(loc string, n int) int {
+			k := c.Choose(n, func(i int) int {
+				if i > 0 {
+					return 1
+				}
+				return 0
+			})
+			if k > 0 {
+				s.trace = append(s.trace, fmt.Sprintf("select@%s:clause%d-first", loc, k))
+			}
+			return k
+		}
+		defer func() { sdriver.VerifChooseHook = nil }()
 		ctx, cancel := context.WithCancel(context.Background())
 		defer cancel()
 		var cancelled bool
